@@ -183,7 +183,7 @@ func genScript(r *vh.Rng, e, timeout int, class string) ([]Resp, Resp) {
 	tailNon, _ := nonMatching(r, e)
 	switch class {
 	case "early":
-		budget := timeout - 70
+		budget := timeout - 250
 		k := r.Intn(6)
 		for i := 0; i < k; i++ {
 			x, c := nonMatching(r, e)
@@ -220,10 +220,13 @@ func genScript(r *vh.Rng, e, timeout int, class string) ([]Resp, Resp) {
 		script = append(script, matching(r, e, 1))
 		return script, matching(r, e, 1)
 	case "inflight":
-		// two stale answers (52 ms), then the expected version, slow: it is requested well
-		// before the deadline and answered after it.
-		script = append(script, httpR(200, strconv.Itoa(e-1), 1), httpR(200, strconv.Itoa(e+1), 1))
-		script = append(script, matching(r, e, timeout-35))
+		// seven stale answers (7 x 26 ms = 182 ms), then the expected version, slow: it is requested
+		// about 220 ms before the deadline and answered about 30 ms after it; the per-request timeout
+		// (= the wait timeout) is 150 ms away, so scheduling noise does not turn it into an error.
+		for i := 0; i < 7; i++ {
+			script = append(script, httpR(200, strconv.Itoa(e-1-i%2), 1))
+		}
+		script = append(script, matching(r, e, timeout-150))
 		return script, tailNon
 	}
 	return script, tailNon
@@ -233,10 +236,17 @@ func genWait(r *vh.Rng, id int) Case {
 	classes := []string{"early", "early", "early", "never", "never", "late", "inflight"}
 	class := classes[id%len(classes)]
 	e := vh.Pick(r, []int{1, 2, 7, 10, 42, 100, 1000, 99999, 0, -3})
-	if class == "inflight" && e < 2 {
+	if class == "inflight" && e < 3 {
 		e = 5
 	}
 	timeout := vh.Pick(r, []int{150, 180, 220})
+	if class == "inflight" {
+		timeout = 400
+	}
+	if class == "early" {
+		// a quarter of a second of slack: the case must not depend on how busy the machine is
+		timeout = vh.Pick(r, []int{400, 500})
+	}
 	script, tail := genScript(r, e, timeout, class)
 	return Case{Fam: "wait", ID: id, Class: class, Expected: e, TimeoutMs: timeout, Script: script, Tail: &tail}
 }
@@ -264,7 +274,7 @@ func runWait(dir string, c *Case) error {
 
 func genReload(r *vh.Rng, id int) Case {
 	n := 1 + r.Intn(5)
-	timeout := 150
+	timeout := 400
 	var steps []ReloadStep
 	for i := 0; i < n; i++ {
 		e := i + 1
